@@ -4,7 +4,7 @@
    function.  [consistent N h p f s0]: f consecutively numbered slots starting at position p with number s0, the rest blank. *)
 From Coq Require Import List NArith Arith.
 Require Import OrigRing OrigStart.
-Require Import Nor Mgr V1 OrigConf.
+Require Import Nor Mgr V1 OrigConf OrigConf2.
 Import ListNotations.
 
 (* for every slot count 2 <= N < 2^32 - 1, rotation p, fill level f and starting number s0 (the wrap across 2^32 - 1 included:
@@ -53,9 +53,18 @@ Theorem c20_fragment_writes_stay_in_slot : forall m u idx1 payload plen rlen d,
   exists news, dlog d' = news ++ dlog d /\ (length news <= 2)%nat /\ Forall (prog_in m (frag_slot u idx1)) news.
 Proof. exact orig_write_in_slot. Qed.
 
+(* ... and at the level of a whole call: write_segment followed by the documented driver loop (repair_step until None; the rebuilt
+   fragment is written through the same range check) - V1.v1_handle with orig = true.  Whatever the call returns and whatever
+   fault is armed, the device log grows only by programs inside the session's two slots (no erase), and the session keeps its slots *)
+Theorem c20_handle_stays_in_pair : forall ffr m u idx1 payload plen d,
+  let '(d', u', _) := v1_handle true ffr m u idx1 payload plen d in
+  (exists news, dlog d' = news ++ dlog d /\ Forall (prog_pair m u) news) /\ same_ids u u'.
+Proof. exact orig_handle_in_pair. Qed.
+
 Print Assumptions c20_ring_find_oldest.
 Print Assumptions c20_start_takes_next_two.
 Print Assumptions c20_allocation_keeps_ring_consistent.
 Print Assumptions c20_next_seq_mod.
 Print Assumptions c20_next_seq_never_reserved.
 Print Assumptions c20_fragment_writes_stay_in_slot.
+Print Assumptions c20_handle_stays_in_pair.
